@@ -73,6 +73,11 @@ def validate_evidence(path):
     return True
 
 
+def _n(vs):
+    """number of violating cases a list of kept witnesses stands for (explorers keep a bounded number of witnesses per cause)"""
+    return sum(int(v.get("n", 1)) for v in vs)
+
+
 def main():
     ap = argparse.ArgumentParser()
     ap.add_argument("id")
@@ -140,7 +145,7 @@ def main():
             v = vs[0]
             if cause in known:
                 known_lines.append("KNOWN-FINDING: property=%s %s :: %s (%d case(s) this run)"
-                                   % (pid, cause, known[cause], len(vs)))
+                                   % (pid, cause, known[cause], _n(vs)))
                 continue
             if nrep >= MAX_REPLAYS:
                 continue
@@ -152,7 +157,7 @@ def main():
                 """write the replay file and replay it twice in fresh processes -> True iff the same cause shows both times"""
                 with open(rpath, "w") as f:
                     json.dump({"property_id": pid, "cause": cause, "case": case,
-                               "msg": v.get("msg"), "seed": seed, "count": len(vs)}, f, indent=1, default=str)
+                               "msg": v.get("msg"), "seed": seed, "count": _n(vs)}, f, indent=1, default=str)
                 obs = []
                 for k in range(2):
                     o = os.path.join(tmp, "rp%d_%d.json" % (nrep, k))
@@ -195,14 +200,14 @@ def main():
                 machinery_fail = True
                 continue
             new_lines.append("VIOLATION property=%s replay=%s" % (pid, rpath))
-            print("  cause=%s  cases=%d  msg=%s" % (cause, len(vs), str(v.get("msg"))[:400]))
+            print("  cause=%s  cases=%d  msg=%s" % (cause, _n(vs), str(v.get("msg"))[:400]))
         wall = time.time() - t0
         cov = res.get("coverage", {})
         ev = {
             "property_id": pid, "tier": tier, "seed": seed, "level": res["level"],
             "coverage": cov, "assumptions": res.get("assumptions", []),
-            "wall_s": round(wall, 2), "violations": len(viols),
-            "violation_causes": {c: len(v) for c, v in by_cause.items()},
+            "wall_s": round(wall, 2), "violations": _n(viols),
+            "violation_causes": {c: _n(v) for c, v in by_cause.items()},
             "known_findings_matched": sorted(c for c in by_cause if c in known),
         }
         os.makedirs(os.path.join(HERE, "evidence"), exist_ok=True)
@@ -220,7 +225,7 @@ def main():
         summary = {k: cov.get(k) for k in ("states", "transitions", "evaluations", "distinct_nontrivial",
                                            "traces_validated_against_impl", "exhaustive") if k in cov}
         print("check %s tier=%s seed=%d: %s violations=%d (new causes=%d, known=%d) wall=%.1fs"
-              % (pid, tier, seed, summary, len(viols), len(new_lines), len(known_lines), wall))
+              % (pid, tier, seed, summary, _n(viols), len(new_lines), len(known_lines), wall))
         if machinery_fail or not ok:
             return 2
         return 1 if new_lines else 0
